@@ -316,3 +316,33 @@ func contradicts(a, b *Val) bool {
 }
 
 func isQuoted(s string) bool { return len(s) >= 2 && s[0] == '"' && s[len(s)-1] == '"' }
+
+// ltForm returns the canonical form of an integer comparison atom: the affine A such that
+// the condition is equivalent to A < 0 over the integers. a < b, b > a, !(a >= b), a <= b-1
+// all have the same canonical form, so rules match conditions independently of how the
+// comparison was written.
+func ltForm(v *Val) (*Aff, bool) {
+	if v == nil || v.K != KAtom || v.At.A == nil {
+		return nil, false
+	}
+	a := v.At.A
+	switch v.At.Op {
+	case "lt":
+		if !v.Neg {
+			return a, true
+		}
+		return a.scale(-1).add(affConst(1), -1), true // !(A<0) == A>=0 == -A-1<0
+	case "le":
+		if !v.Neg {
+			return a.add(affConst(1), -1), true // A<=0 == A-1<0
+		}
+		return a.scale(-1), true // !(A<=0) == A>0 == -A<0
+	}
+	return nil, false
+}
+
+// ltIs: the condition is equivalent to canon < 0 (canon given as the Aff's canonical string).
+func ltIs(v *Val, canon string) bool {
+	a, ok := ltForm(v)
+	return ok && a.String() == canon
+}
